@@ -591,8 +591,10 @@ def splice_loops(body, loop_contracts, base_line, relfile, cname, cnt, allow_mis
     if loop_contracts:
         mx = max(loop_contracts)
         if mx > len(loops):
-            raise ExtractionError('%s: contract for loop %d but only %d loops in the body (needs re-annotation)'
-                                  % (cname, mx, len(loops)))
+            # a loop that was annotated no longer exists (e.g. a retry loop reduced to a single attempt): its contract is
+            # dropped and the function contract has to hold for the new body -- a semantic change is then reported as a
+            # failed obligation instead of an extraction break
+            cnt.hit('loop_contract_orphaned:%s' % cname, mx - len(loops))
     # every loop must have a contract unless the unit is bounded (checked by caller via return value)
     # splice from the last to the first so offsets stay valid
     annotated = 0
